@@ -319,7 +319,7 @@ func smallScope(kind string, add func(in interface{})) {
 	}
 }
 
-const e2eRule = "seeded document sets (1..maxDocs documents, 1..4 and sometimes 200+ conjunctions, 0..6 expressions over the fields with repetition on one field, 0..4 values from the alphabet {-1, 0, 1..5} in several Go representations (per docset sometimes as identities beyond the int64 range 2^63+v in unsigned / decimal-string form, or as fractional floats on one side), empty lists, all-negative and empty conjunctions, ids incl. 0 and +-(2^43-1)), every tenth case over 9..16 fields, every eighth with pattern and range fields next to the default ones; documents added one per AddDocument call or (30%) in groups of 2..5, (20%) with an intermediate BuildIndex before the remaining documents, (25%) on a builder that has already built and Reset an earlier generation; 8..20 queries per index (absent/nil/empty/1..3 values per field -- one docset in six over a 24-value alphabet with 9..16 values per field --, an unknown field, repeats, debug options on 20%); thorough adds the exhaustive small scope (2 documents, conjunctions of <=2 atoms over 2 fields x 2 values, all 16 assignments). A case is non-trivial when some query returns a non-empty proper subset of the accepted documents; distinct = distinct input"
+const e2eRule = "seeded document sets (1..maxDocs documents, 1..4 and sometimes 200+ conjunctions, 0..6 expressions over the fields with repetition on one field, 0..4 values from the alphabet {-1, 0, 1..5} in several Go representations (per docset sometimes as identities beyond the int64 range 2^63+v in unsigned / decimal-string form, or as fractional floats on one side), empty lists, all-negative and empty conjunctions, ids incl. 0 and +-(2^43-1)), every tenth case over 9..16 fields, every eighth with pattern and range fields next to the default ones; documents added one per AddDocument call or (30%) in groups of 2..5, (20%) with an intermediate BuildIndex before the remaining documents, (25%) on a builder that has already built and Reset an earlier generation; 8..20 queries per index (absent/nil/empty/1..3 values per field -- one docset in six over a 24-value alphabet with 9..16 values per field --, an unknown field, repeats, debug options on 20%); thorough adds the exhaustive small scope (2 documents, conjunctions of <=2 atoms over 2 fields x 2 values, all 16 assignments). A case is integers against float64 of the same value at magnitudes 10^5 .. 2^53 (both sides); non-trivial when some query returns a non-empty proper subset of the accepted documents; distinct = distinct input"
 
 func init() {
 	gen := func(kind string, multiSat, mixed bool) func(tier string, r *Rand, add func(in interface{})) {
@@ -384,6 +384,25 @@ func init() {
 				}
 				add(cacheIn{Cache: true, Case: c, Thr: 2, Seed: 81, MissPct: 0, DropPct: 0})
 				add(cacheIn{Cache: true, Case: c, Thr: 2, Seed: 82, MissPct: 30, DropPct: 0, Reuse: true})
+			}
+			// the same number as an integer on one side and as a float64 (as encoding/json decodes every number) on the
+			// other, at magnitudes where a float no longer prints in plain decimal by default (10^6 and up, up to 2^53)
+			for side := 0; side < 2; side++ {
+				big := []int64{1000000, 1234567, -1000000, 21000000, 9007199254740992, 999999, 100000}
+				mk := func(fl bool, v int64) TV {
+					if fl {
+						return tvFloat("float64", float64(v))
+					}
+					return tvInt("int64", v)
+				}
+				c := eCase{Kind: kind, Policy: "error"}
+				for i, v := range big {
+					c.Docs = append(c.Docs, eDoc{ID: int64(i + 1), Cons: []eConj{{{F: 0, Inc: true, V: tvList(mk(side == 0, v))}}, {{F: 1, Inc: true, V: tvStr("x")}, {F: 0, Inc: false, V: mk(side == 0, v)}}}})
+				}
+				for _, v := range big {
+					c.Queries = append(c.Queries, eQuery{A: []eAssign{{F: 0, V: mk(side == 1, v)}}}, eQuery{A: []eAssign{{F: 0, V: tvList(mk(side == 1, v), mk(side == 1, 5))}, {F: 1, V: tvStr("x")}}})
+				}
+				add(c)
 			}
 			// default-container fields only: BuildIndex, then a document introducing a NEW field, then BuildIndex again
 			// without Reset -- the index that is finally built must know the late field
